@@ -422,6 +422,9 @@ class Spec:
             self.solns.append(t[1] == "1")
             exp = "exact=%d" % (1 if self.has_exact() else 0)
             klass = "exact"
+        elif op == "cbclear" and len(t) == 1:
+            self.cb = None
+            exp = "ok"
         elif op == "solnclear" and len(t) == 1:
             self.solns = []
             exp = "exact=0"
@@ -539,8 +542,18 @@ class Spec:
             new_q = ((m - 1) * prev_q + Fraction(c)) / m
             e = Fraction(o.eps)
             fire_q = o.k >= w and (1 - e) * prev_q < new_q < (1 + e) * prev_q
+            # the property's own words: "the moving average changed by less than the relative threshold".  For a
+            # non-negative previous average this is the band test above (`costConv_relative_partial`); for a negative
+            # one the band is empty and the two part (finding F481, `costConv_relative_fails`)
+            fire_rel = o.k >= w and abs(new_q - prev_q) < e * abs(prev_q)
             o.avg_q = new_q
-            if fire_q != fire_f:
+            if fire_rel != fire_q:
+                self.neg_avg_decisions = getattr(self, "neg_avg_decisions", 0) + 1
+                if not o.term:
+                    o.neg_diverged = True
+                fire = fire_rel
+                fire_f = fire_rel
+            elif fire_q != fire_f:
                 # the decision hinges on rounding: from here on the exact and the rounded averages
                 # may part; follow the rounded ones (the code computes in doubles) and say so
                 self.rounding_sensitive += 1
@@ -615,6 +628,8 @@ class Spec:
             wrapped = [x for x, _ in snap_iter if x.count >= U32]
             if wrapped:
                 klass = "iter-wrap"
+            if any(getattr(x, "neg_diverged", False) for x in self.reach(o, [])):
+                klass = "costconv-negative-average"
             if any(x.kind == "timed" and getattr(x, "overflowing", False) for x in self.reach(o, [])):
                 klass = "timed-overflow"
             what = "evaluation answered %r, the property says %r" % (out, exp)
@@ -820,8 +835,19 @@ def gen_iter_wrap(rng, spin=False):
 
 def cost_seq(rng, n):
     r = rng
-    kind = r.below(8)
+    kind = r.below(11)
     c0 = r.choice([1.0, 10.0, 123.456, 1e-3, 1e6])
+    if kind == 8:
+        # negative costs throughout (constant / converging): the running average is negative (F481)
+        q = r.choice([1.0, 0.9, 0.99, 1.01])
+        return [-c0 * q ** i for i in range(n)]
+    if kind == 9:
+        # the average crosses zero, in either direction; zero costs
+        s0 = r.choice([-1.0, 1.0])
+        return [s0 * c0 * (1.0 - 0.5 * i) if i < 5 else r.choice([0.0, -s0 * c0, s0 * c0]) for i in range(n)]
+    if kind == 10:
+        # non-monotone: a better solution after a plateau, then worse again
+        return [c0 * r.choice([1.0, 1.0, 0.5, 2.0, 1.0001, 0.9999]) for _ in range(n)]
     if kind == 0:
         return [c0] * n
     if kind == 1:
@@ -872,12 +898,89 @@ def gen_cost(rng):
                 g.ev(cc)
         if r.chance(1, 30):
             g.add("term " + cc)
+        if r.chance(1, 20):
+            # the callback is replaced on the problem definition while the condition is alive: reports no longer
+            # reach it; a later condition takes the callback again, the old one keeps whatever it had
+            g.add("cbclear")
+            g.add("cost " + fb(c))
+            g.ev(cc)
+            if r.chance(1, 2):
+                cc3 = g.define("costconv %d %s" % (w if w else 1, fb(eps)))
+                g.add("cost " + fb(c))
+                g.add("cost " + fb(c))
+                g.ev(cc3)
+                g.ev(cc)
     if r.chance(1, 4):
         e = g.define("exact")
         o = g.define("or %s %s" % (cc, e), 1)
         g.ev(o)
         g.add("soln 0 " + fb(0.0))
         g.ev(o)
+    return g.lines
+
+
+def gen_factory_histories(rng):
+    """the public factories in the histories gen_logic only meets by chance: terminate() requested on an operand (or on
+    a copy of it) *before* it is combined, combinations three deep, a combination that outlives its operands (all their
+    names dropped), operands changing value under the combination (re-scripted predicates, solutions added / cleared,
+    the clock passing a timed operand's deadline), terminate() on the inner / outer combination and on copies; the
+    (duration, interval) factory in its direct form (interval <= 0) and, after a `sync`, in its periodic form"""
+    g = G(rng)
+    r = rng
+    for i in range(3):
+        g.script(i)
+
+    def leaf():
+        k = r.below(7)
+        if k <= 1:
+            return g.define("pred %d" % r.below(3))
+        if k == 2:
+            return g.define("never")
+        if k == 3:
+            return g.define("always")
+        if k == 4:
+            return g.define("exact")
+        if k == 5:
+            return g.define("timed " + fb(r.choice([0.001, 0.002, 0.0035])))
+        return g.define("timedp %s %s" % (fb(r.choice([0.001, 0.002])), fb(r.choice([0.0, -1.0, -0.0]))))
+    a, b, c, d = leaf(), leaf(), leaf(), leaf()
+    pre = r.choice([a, b, c, None])
+    if pre:
+        if r.chance(1, 2):
+            cp = g.fresh()
+            g.add("copy %s %s" % (pre, cp))
+            g.names.append(cp)
+            g.add("term " + cp)              # through a copy: same impl
+            g.add("drop " + cp)
+        else:
+            g.add("term " + pre)
+    ops = [r.choice(["or", "and"]) for _ in range(3)]
+    x = g.define("%s %s %s" % (ops[0], a, b), 1)
+    y = g.define("%s %s %s" % (ops[1], x, c) if r.chance(1, 2) else "%s %s %s" % (ops[1], c, x), 2)
+    z = g.define("%s %s %s" % (ops[2], d, y) if r.chance(1, 2) else "%s %s %s" % (ops[2], y, d), 3)
+    for v in (x, y, z):
+        g.ev(v)
+    if r.chance(2, 3):
+        for nm in (a, b, c, d, x, y):        # the outer combination outlives everything it was built from
+            g.add("drop " + nm)
+            g.names.remove(nm)
+    t = 0
+    for _ in range(r.range(4, 10)):
+        k = r.below(7)
+        if k == 0:
+            g.script(r.below(3))
+        elif k == 1:
+            g.add("soln %d %s" % (r.below(2), fb(0.5)))
+        elif k == 2:
+            g.add("solnclear")
+        elif k == 3:
+            t += r.choice([400000, 1000000, 1000001, 2500000])
+            g.add("clock %d" % t)
+        elif k == 4 and r.chance(1, 3):
+            g.add("term " + g.pick())
+        g.ev(z)
+        if r.chance(1, 3):
+            g.ev()
     return g.lines
 
 
@@ -1352,6 +1455,52 @@ def gen_naps(rng, variant, deep=False):
     return g.lines
 
 
+UB_PERIODS_OK = [0.3, 0.0015, 1.0, 100.0, 86400.0, 4.0e6, 4294967.0, 5e-324, 1e-9, 0.0, -1.0, float("nan"), -float("inf")]
+UB_PERIODS_BIG = [4294967.296, 4294967.2955, 5.0e6, 1.0e7, 1.0e10, 1.0e300, float("inf")]
+
+
+def check_period_conversions(ck):
+    """F480: PlannerTerminationCondition.cpp of the tree under test, compiled into harness/ptc_ub.cpp with
+    -fsanitize=float-cast-overflow (+ signed overflow), is handed periods through the public constructor and through
+    timedPlannerTerminationCondition(duration, interval).  Any `double` is a legal period (`+infinity` is what
+    timedPlannerTerminationCondition(inf, inf) - "run for ever, poll as rarely as you like" - hands to the impl since
+    durations saturate, F195); a conversion out of range is undefined behaviour: the input class decides between the
+    known finding (period >= 2^32 ms) and a new violation (anything smaller)."""
+    try:
+        hub = ck.build_harness("ptc_ub", ["ptc_ub.cpp"], link_ompl=True, sanitize="address,undefined,float-cast-overflow")
+    except RuntimeError as e:
+        ck.log("ptc_ub does not compile against this tree (%s): period conversions not checked" % str(e)[-300:])
+        ck.count("ub:harness-not-built")
+        return
+    jobs = [("in-range", "poll " + fb(p)) for p in UB_PERIODS_OK] + [("beyond-2^32-ms", "poll " + fb(p)) for p in UB_PERIODS_BIG]
+    jobs += [("in-range", "timedp %s %s" % (fb(2.0), fb(0.02))), ("in-range", "timedp %s %s" % (fb(float("inf")), fb(0.1))),
+             ("beyond-2^32-ms", "timedp %s %s" % (fb(float("inf")), fb(float("inf")))),
+             ("beyond-2^32-ms", "timedp %s %s" % (fb(1e10), fb(1e10)))]
+    seen = set()
+    for klass, line in jobs:
+        out, rc, err = ck.run_bin(hub, [line], timeout=60)
+        ck.count("ub:periods-" + klass)
+        ck.case(("ub", line), klass != "in-range")
+        msgs = [l for l in (err or "").split("\n") if "runtime error" in l]
+        if rc == 0 and out == ["ok"]:
+            continue
+        site = "other"
+        if msgs and "unsigned int" in msgs[0]:
+            site = "count"
+        elif msgs and ("Time.h" in msgs[0] or "chrono" in msgs[0]):
+            site = "seconds"
+        rec = {"engine": "ptc", "class": "period-conversion-ub", "input": klass, "site": site}
+        key = (klass, site)
+        if key in seen and klass != "in-range":
+            continue
+        seen.add(key)
+        what = msgs[0].strip() if msgs else "exit code %s, output %r" % (rc, out)
+        rec["what"] = "periodicEval with `%s` (period %r s): %s" % (line, bf(line.split()[-1]), what)
+        new = ck.report(rec, script=["ptc_ub", line], expected=["ok"], observed=(out or []) + msgs[:1], engine="ptc")
+        if new:
+            ck.log("undefined conversion of a period [%s/%s]: %s" % (klass, site, what))
+
+
 # ====================================================================================== the check
 def canon(impl, model):
     """lines the model marks as scheduling-dependent are compared as wildcards"""
@@ -1391,15 +1540,29 @@ def tree_saturates():
         return True
 
 
+def tree_swaps_thresholds():
+    """does the tree under test have the repair proposed for F481 (notes/C18-fix-F481.diff)?  Then the model is told
+    to swap the thresholds for a negative average too (header `neg=1`); the oracle does not depend on it."""
+    p = os.path.join(core.REPO, "src", "ompl", "base", "terminationconditions", "src", "CostConvergenceTerminationCondition.cpp")
+    try:
+        return "std::swap(costLowerThreshold" in open(p).read()
+    except OSError:
+        return False
+
+
 SAT = None
+NEG = None
+SHRUNK_ONCE = set()
 
 
 def run_once(ck, hbin, script):
-    global SAT
+    global SAT, NEG
     if SAT is None:
         SAT = tree_saturates()
+    if NEG is None:
+        NEG = tree_swaps_thresholds()
     hdr = script[0].split()[:2]
-    sent = [" ".join(hdr + ["sat=%d" % (1 if SAT else 0)])] + list(script[1:])
+    sent = [" ".join(hdr + ["sat=%d" % (1 if SAT else 0), "neg=%d" % (1 if NEG else 0)])] + list(script[1:])
     impl, rc, err, model = ck.run_pair(hbin, DRIVER, sent, timeout=120)
     impl = impl or []
     fail, spec = oracle(script, impl)
@@ -1463,6 +1626,7 @@ def judge(ck, hbin, script, tag, res):
     for o in impl:
         if o.startswith("n=") and not o.startswith("n=?"):
             ck.count("naps:" + ("none" if o.startswith("n=0 ") else "some"))
+    ck.count("oracle:cost-decisions-with-a-negative-average", getattr(res["spec"], "neg_avg_decisions", 0))
     ck.count("oracle:no-demand-evaluations", res["spec"].uncertain)
     ck.count("oracle:rounding-sensitive-cost-decisions", res["spec"].rounding_sensitive)
     ck.count("model:scheduling-dependent-lines", sum(1 for m in res["model"] if m.startswith("r=?")))
@@ -1493,7 +1657,13 @@ def judge(ck, hbin, script, tag, res):
             # handshake scripts are short and every line is part of the rendezvous (dropping one turns a
             # bounded wait into a time-out): reported as they are
             small = script
+        elif klass in SHRUNK_ONCE:
+            # a class that has been shrunk and reported in this run already (a known finding met by many generated
+            # scripts): reported as it is, the run's budget goes to exploring
+            small = script
+            ck.count("shrink:skipped-repeat-of-" + klass)
         else:
+            SHRUNK_ONCE.add(klass)
             small = [script[0]] + core.ddmin(script[1:], still, max_tests=150)
         r2 = run_script(ck, hbin, small)
         f2 = r2["fail"] or fail
@@ -1539,6 +1709,7 @@ def corpus():
 
 def setup(ck):
     ck.build_harness("ptc", ["ptc.cpp"], link_ompl=True)
+    ck.build_harness("ptc_ub", ["ptc_ub.cpp"], link_ompl=True, sanitize="address,undefined,float-cast-overflow")
 
 
 def run(ck):
@@ -1584,6 +1755,8 @@ def run(ck):
         jobs.append(("cost", gen_cost(ck.rng.fork("cost%d" % i))))
     for i in range(60 if quick else 600):
         jobs.append(("cost-interleaved", gen_cost_interleaved(ck.rng.fork("costi%d" % i))))
+    for i in range(80 if quick else 800):
+        jobs.append(("factory-histories", gen_factory_histories(ck.rng.fork("fach%d" % i))))
     for i in range(n_timed):
         jobs.append(("timed-fake-clock", gen_timed_fake(ck.rng.fork("timed%d" % i))))
     for i in range(n_adv):
@@ -1635,6 +1808,7 @@ def run(ck):
             for tag, s, f in fs:
                 if not judge(ck, hbin, s, tag, f.result()):
                     bad += 1
+    check_period_conversions(ck)
     ck.extra_cov["real_time_wait_ms_per_script"] = [sum(int(l.split()[1]) for l in s if l.startswith("wait ")) for _, s in real]
     return 0
 
@@ -1643,6 +1817,16 @@ def replay(ck, data):
     hbin = ck.build_harness("ptc", ["ptc.cpp"], link_ompl=True)
     ck.lean_build([DRIVER])
     script = data["script"]
+    if script and script[0] == "ptc_ub":
+        hub = ck.build_harness("ptc_ub", ["ptc_ub.cpp"], link_ompl=True, sanitize="address,undefined,float-cast-overflow")
+        out, rc, err = ck.run_bin(hub, script[1:], timeout=60)
+        msgs = [l for l in (err or "").split("\n") if "runtime error" in l]
+        print("%-60s -> %s rc=%s %s" % (script[1], out, rc, msgs[:1]))
+        if rc != 0 or out != ["ok"]:
+            print("UNDEFINED CONVERSION of the period (F480)")
+            return 1
+        print("no failure on the current tree")
+        return 0
     res = run_script(ck, hbin, script)
     impl, model = res["impl"], res["model"]
     a, b = canon(impl, model)
